@@ -101,6 +101,9 @@ def run_case(case):
         elif L != 0 and (mls[0] == 0 or mls[0] > L):
             viol.append((sig + ':announced-more-than-configured:' + tag,
                          'announces maximum length %d but is configured for %d (%s)' % (mls[0], L, where)))
+    if sorted(a.accepted_contexts) != [1]:
+        viol.append((sig + ':association-unusable:' + tag, 'after the negotiation the accepted contexts are %r (context 1 was proposed and accepted) (%s)' % (
+            sorted(a.accepted_contexts), where)))
     lim = a.max_pdu_length
     # the fragment size the library will use; the peer's limit decides what is allowed
     bound = P if P else None
